@@ -1436,6 +1436,123 @@ def quad_records(ctx):
             out = {'raised': type(e).__name__}
         add('pdf2d', 'PDFs.' + name + ('(strided)' if layout == 'strided' else ''),
             {'name': name, 'x': rats(xs), 'y': rats(ys), 'params': rats(p), 'layout': layout, 'ref': rats(ref)}, out, cls=layout)
+    # ---------------- call sequences on ONE cache object (history independence), in both tiers ----------------
+    # Sessions of calls on a shared Cache1D / Cache2D object: different sel_dist with IDENTICAL numeric params,
+    # the same sel_dist with different params, the same call again, other theta / exterior_int, the point-mass and
+    # mixture helpers (which integrate with a parameter prefix) - in two different orders.  Every observation is
+    # judged by the same quadrature clauses as a call on a fresh object, and must equal the fresh-object result bit
+    # for bit (DFEQuad!HistoryIndependent); the object must be unchanged (DFEQuad!ObjectUnchanged).
+    rngs = random.Random(ctx.seed + 1700)
+
+    def obj_digest(c):
+        h = hashlib.sha256()
+        for a in (c.gammas, c.neg_gammas, c.spectra, getattr(getattr(c, 'neu_spec', None), 'data', [])):
+            h.update(np.ascontiguousarray(np.asarray(a, dtype=float)).tobytes())
+        return h.hexdigest()[:20]
+
+    def session(tag, make, calls, order_a, order_b):
+        """calls: list of dicts(label, site, op, run(objs) -> Spectrum, inp(objs) -> record input)."""
+        fresh_objs = make()
+        inputs = [cl['inp'](fresh_objs) for cl in calls]
+        before = [obj_digest(o) for o in fresh_objs]
+        fresh = []
+        for cl in calls:
+            objs = make()
+            fresh.append(obs(lambda: cl['run'](objs)))
+        seen = {}
+        after = []
+        for sname, order in (('a', order_a), ('b', order_b)):
+            objs = make()
+            occ = {}
+            for pos, k in enumerate(order):
+                cl = calls[k]
+                o = obs(lambda: cl['run'](objs))
+                occ[k] = occ.get(k, 0) + 1
+                seen[(sname, k, occ[k])] = o
+                add(cl['op'], cl['site'], inputs[k], o, cls='session-%s/%s%d:%s' % (tag, sname, pos, cl['label']))
+            after.append([obj_digest(o) for o in objs])
+        for k, cl in enumerate(calls):
+            for rep in (1, 2):
+                if ('a', k, rep) not in seen and ('b', k, rep) not in seen:
+                    continue
+                oa = seen.get(('a', k, rep), seen[('a', k, 1)])
+                ob = seen.get(('b', k, rep), seen[('b', k, 1)])
+                bad = [x for x in (fresh[k], oa, ob) if 'raised' in x]
+                out = {'raised': bad[0]['raised'], 'msg': bad[0].get('msg', '')} if bad else {'fresh': fresh[k], 'a': oa, 'b': ob}
+                add('history', cl['site'] + '(history)', {'session': tag, 'call': cl['label'], 'occurrence': rep,
+                                                          'order_a': [calls[j]['label'] for j in order_a],
+                                                          'order_b': [calls[j]['label'] for j in order_b]}, out, cls='session-' + tag)
+        for i in range(len(before)):
+            add('object', type(fresh_objs[i]).__name__ + '(object)', {'session': tag}, {'before': before[i], 'after': [a[i] for a in after]},
+                cls='session-' + tag)
+
+    # ---- 2-D session (with the 1-D two-population cache the mixtures need) ----
+    def make2():
+        return (small_cache1(4, 0.25, 8.0, extra=(2.5, 0.75), pair=True), small_cache2(4, 0.25, 8.0, extra=(2.5, 0.75)))
+    o0 = make2()
+    xs2, xs1 = o0[1].neg_gammas, o0[0].neg_gammas
+    famS = Fam([(('pl', [0.5, 0.25, 1.0, 0.125]), ('invsq', [0.5])), (('invsq', [1.0]), ('pl', [0.125, 1.0, 0.25, 0.5]))], xs2)
+    PS = [1.0, 2.0, 0.3]                 # the SAME numbers for every density of the session
+
+    def int2(label, name, p, theta, ext):
+        pdf = famS.pdf2 if name == 'fam' else getattr(PDFs, name)
+        spec = famS.spec2(p[:2]) if name == 'fam' else tab2(name, p, xs2)
+        return {'label': label, 'site': 'Cache2D.integrate', 'op': 'integrate2d',
+                'run': lambda objs: objs[1].integrate(list(p), None, pdf, theta, None, exterior_int=ext),
+                'inp': lambda objs: {'theta': rat(theta), 'ext': ext, 'c2': enc_c2(objs[1]), 'pdf2': spec}}
+    specG, specL = tab2('biv_ind_gamma', PS, xs2), tab2('biv_lognormal', PS, xs2)
+    calls2 = [int2('lognormal', 'biv_lognormal', PS, 2.5, True), int2('gamma', 'biv_ind_gamma', PS, 2.5, True),
+              int2('fam', 'fam', PS, 2.5, True), int2('lognormal-theta', 'biv_lognormal', PS, 1000.0, True),
+              int2('gamma-noext', 'biv_ind_gamma', PS, 2.5, False), int2('lognormal-p2', 'biv_lognormal', [0.3, 0.8, -0.5], 2.5, True),
+              int2('lognormal-p3', 'biv_lognormal', [0.3, 0.8, 0.5], 0.375, True),
+              {'label': 'pointpos-gamma', 'site': 'Cache2D.integrate_point_pos', 'op': 'pointpos2d',
+               'run': lambda objs: objs[1].integrate_point_pos(PS + [0.25, 2.5, 0.0625, 0.75], None, PDFs.biv_ind_gamma, 2.5, rho=0.5),
+               'inp': lambda objs: pp2_in(objs[1], specG, 2.5, 0.5, 0.25, 2.5, 0.0625, 0.75)},
+              {'label': 'sympointpos-lognormal', 'site': 'Cache2D.integrate_symmetric_point_pos', 'op': 'pointpos2d',
+               'run': lambda objs: objs[1].integrate_symmetric_point_pos(PS + [0.125, 2.5], None, PDFs.biv_lognormal, 1000.0),
+               'inp': lambda objs: pp2_in(objs[1], specL, 1000.0, PS[2], 0.125, 2.5, 0.125, 2.5)},
+              {'label': 'mixture-lognormal', 'site': 'DFE.mixture', 'op': 'mixture',
+               'run': lambda objs: DFE.mixture(PS + [0.25], None, objs[0], objs[1], PDFs.lognormal, PDFs.biv_lognormal, 2.5, None),
+               'inp': lambda objs: {'theta': rat(2.5), 'ext': True, 'c1': enc_c1(objs[0]), 'pdf1': tab1('lognormal', PS[:2], xs1),
+                                    'c2': enc_c2(objs[1]), 'pdf2': specL, 'p2d': rat(0.25)}},
+              {'label': 'mixture-gamma', 'site': 'DFE.mixture', 'op': 'mixture',
+               'run': lambda objs: DFE.mixture(PS + [0.5], None, objs[0], objs[1], PDFs.gamma, PDFs.biv_ind_gamma, 0.375, None),
+               'inp': lambda objs: {'theta': rat(0.375), 'ext': True, 'c1': enc_c1(objs[0]), 'pdf1': tab1('gamma', PS[:2], xs1),
+                                    'c2': enc_c2(objs[1]), 'pdf2': specG, 'p2d': rat(0.5)}}]
+    session('2d', make2, calls2, [0, 1, 2, 3, 4, 5, 6, 7, 8, 9, 10, 1, 0], [10, 9, 8, 7, 1, 6, 5, 0, 4, 3, 2, 0, 1])
+
+    # ---- 1-D session ----
+    def make1():
+        return (small_cache1(5, 0.125, 4.0, extra=(2.5, 0.75)),)
+    x1 = make1()[0].neg_gammas
+    fam1 = Fam([('pl', [0.5, 0.25, 1.0, 0.125, 0.75]), ('invsq', [0.5])], x1)
+    P1S = [2.0, 3.0]
+
+    def int1(label, name, p, theta, ext):
+        pdf = fam1.pdf1 if name == 'fam' else getattr(PDFs, name)
+        spec = fam1.spec1(p) if name == 'fam' else tab1(name, p, x1)
+        return {'label': label, 'site': 'Cache1D.integrate', 'op': 'integrate1d',
+                'run': lambda objs: objs[0].integrate(list(p), None, pdf, theta, None, exterior_int=ext),
+                'inp': lambda objs: {'theta': rat(theta), 'ext': ext, 'c1': enc_c1(objs[0]), 'pdf1': spec}}
+
+    def pp1(label, name, p, theta, props, gpos):
+        def inp(objs):
+            c = objs[0]
+            gl = list(c.gammas)
+            return {'theta': rat(theta), 'ext': True, 'c1': enc_c1(c), 'pdf1': tab1(name, p, x1), 'mode': 'session',
+                    'pp': [{'p': rat(pr), 'S': rats(np.asarray(c.spectra[gl.index(g)]).ravel()), 'gamma': rat(g)} for pr, g in zip(props, gpos)]}
+        params = list(p) + [v for pr, g in zip(props, gpos) for v in (pr, g)]
+        return {'label': label, 'site': 'Cache1D.integrate_point_pos', 'op': 'pointpos1d', 'inp': inp,
+                'run': lambda objs: objs[0].integrate_point_pos(params, None, getattr(PDFs, name), theta, None, len(props))}
+    calls1 = [int1('gamma', 'gamma', P1S, 2.5, True), int1('lognormal', 'lognormal', P1S, 2.5, True), int1('beta', 'beta', P1S, 2.5, True),
+              int1('fam', 'fam', P1S, 2.5, True), int1('gamma-theta', 'gamma', P1S, 1000.0, True), int1('gamma-noext', 'gamma', P1S, 2.5, False),
+              int1('gamma-p2', 'gamma', [0.8, 3.0], 0.375, True), int1('exponential', 'exponential', [2.0], 2.5, True),
+              pp1('pointpos-lognormal', 'lognormal', P1S, 2.5, [0.25], [2.5]), pp1('pointpos2-gamma', 'gamma', P1S, 1000.0, [0.125, 0.25], [0.75, 2.5])]
+    oa = list(range(10)) + [1, 0]
+    ob = oa[:10][::-1] + [0, 1]
+    if not ctx.quick:
+        rngs.shuffle(ob)
+    session('1d', make1, calls1, oa, ob)
     # fixed compiled-density records: rho at both ends of (-1,1), every parameter count, Lanczos reflection branch
     # (alpha < 0.5), every argument layout / dtype
     X0, Y0 = [0.01, 0.75, 3.0, 40.0, 900.0], [0.002, 1.0, 7.5, 250.0]
@@ -1552,6 +1669,16 @@ def mutate_b(rec):
     out = rec['out']
     if 'raised' in out:
         return None
+    if rec['op'] == 'history':
+        d = out['a']['d']
+        ks = [k for k in range(len(d)) if not out['a']['m'][k] and d[k] not in ('nan', 'inf', '-inf') and Fraction(d[k]) != 0]
+        if not ks:
+            return None
+        d[ks[0]] = _bump(d[ks[0]], Fraction(1000001, 1000000))
+        return rec
+    if rec['op'] == 'object':
+        out['after'][-1] = 'feedfacefeedfacefeed'
+        return rec
     if rec['op'] == 'theta_pair':
         ks = [k for k in range(len(out['d2'])) if not out['m2'][k] and Fraction(out['d2'][k]) != 0]
         if not ks:
